@@ -24,11 +24,15 @@ Inductive shape :=
 
 Record fn := mkFn {
   f_shape : shape;
-  f_extras : list time;             (* further delayed calls (delays), doing nothing *)
+  f_extras : list (time * option bool);
+                                    (* further delayed calls: (delay, None) does nothing; (delay, Some o) tries to call
+                                       Spinner.run itself when it runs (o: through ANOTHER Spinner on the same reactor),
+                                       swallows whatever comes out and notes what happened *)
   f_sels : nat;                     (* selectables registered with the reactor *)
   f_stop : option time;             (* reactor.stop() requested at this instant (an interrupt) *)
   f_stop_now : bool;                (* reactor.stop() called synchronously inside the function *)
-  f_reenter : bool;                 (* the function tries to call Spinner.run itself and notes what happens *)
+  f_reenter : list bool;            (* the function tries to call Spinner.run itself, once per entry (true: through
+                                       ANOTHER Spinner on the same reactor), swallowing the outcome each time *)
   f_setsig : option (nat * nat)     (* the function installs handler h for signal s *)
 }.
 
@@ -38,6 +42,7 @@ Inductive action :=
 | AFire (o : outcome)               (* the function's Deferred fires *)
 | AStopReq                          (* lambda: reactor.stop() *)
 | ANoop (tok : nat)
+| ATry (tok : nat) (other : bool)   (* a delayed call of the function's that tries a re-entrant run *)
 | ARunFunction (T : time) (f : fn). (* the callWhenRunning hook of Spinner.run *)
 
 (* tokens under which calls / selectables are reported (ran, junk) *)
@@ -48,7 +53,7 @@ Definition tok_extra (i : nat) := 10 + i.
 Definition tok_sel (j : nat) := 100 + j.
 Definition tok_of (a : action) : nat :=
   match a with
-  | ATimeout => tok_timeout | AFire _ => tok_fire | AStopReq => tok_stop | ANoop t => t
+  | ATimeout => tok_timeout | AFire _ => tok_fire | AStopReq => tok_stop | ANoop t => t | ATry t _ => t
   | ARunFunction _ _ => tok_timeout
   end.
 
@@ -88,9 +93,10 @@ Record world := mkW {
   w_flag : bool;                    (* not_reentrant's _calls[run] *)
   w_sp : spinner;
   w_ran : list nat;                 (* tokens of the delayed calls that have run, in order (0 = the timeout call) *)
-  w_reentry : option bool           (* Some b: a re-entrant call was tried; b = it raised ReentryError *)
+  w_reentry : list bool             (* one entry per re-entrant call tried during this run, in order: it raised
+                                       ReentryError (and changed nothing) *)
 }.
-Definition new_world (orc : list nat) := mkW (new_reactor orc) SReal [] false new_spinner [] None.
+Definition new_world (orc : list nat) := mkW (new_reactor orc) SReal [] false new_spinner [] [].
 
 Definition set_r r w := mkW r (w_stop w) (w_sig w) (w_flag w) (w_sp w) (w_ran w) (w_reentry w).
 Definition set_stop s w := mkW (w_r w) s (w_sig w) (w_flag w) (w_sp w) (w_ran w) (w_reentry w).
@@ -154,21 +160,32 @@ Definition reactor_stop (w : world) : world :=
 
 Definition log_ran (t : nat) (w : world) : world := set_ran (w_ran w ++ [t]) w.
 
+Definition is_reentry (r : res value exc) : bool :=
+  match r with Raised EReentry => true | _ => false end.
+
+(* somebody calls run() while a run may be in progress (`other`: through another Spinner object - the guard of
+   not_reentrant is per decorated function, not per object) and notes whether it was refused *)
+Definition try_reenter (inner : world -> res value exc * world) (other : bool) (w : world) : world :=
+  let '(r, w') := inner w in set_reentry (w_reentry w' ++ [is_reentry r]) w'.
+
 (* a delayed call runs *)
-Definition exec_call (c : dcall action) (w : world) : world :=
+Definition exec_call (inner : world -> res value exc * world) (c : dcall action) (w : world) : world :=
   match dc_act c with
   | ATimeout => timed_out (log_ran tok_timeout w)
   | AFire o => stop_reactor (got o (log_ran tok_fire w))   (* addCallbacks(_got_success, _got_failure); addBoth(_stop_reactor) *)
   | AStopReq => reactor_stop (log_ran tok_stop w)
   | ANoop t => log_ran t w
+  | ATry t o => try_reenter inner o (log_ran t w)
   | ARunFunction _ _ => w
   end.
 
 (* ---- the user's function, called through maybeDeferred from run_function (316-319) ---- *)
-Fixpoint schedule_extras (i : nat) (ds : list time) (w : world) : world :=
+Definition extra_action (i : nat) (x : option bool) : action :=
+  match x with None => ANoop (tok_extra i) | Some o => ATry (tok_extra i) o end.
+Fixpoint schedule_extras (i : nat) (ds : list (time * option bool)) (w : world) : world :=
   match ds with
   | [] => w
-  | d :: r => schedule_extras (S i) r (later d (ANoop (tok_extra i)) w)
+  | d :: r => schedule_extras (S i) r (later (fst d) (extra_action i (snd d)) w)
   end.
 Fixpoint add_sels (j n : nat) (w : world) : world :=
   match n with
@@ -176,17 +193,12 @@ Fixpoint add_sels (j n : nat) (w : world) : world :=
   | S n' => add_sels (S j) n' (set_r (add_reader (tok_sel j) (w_r w)) w)
   end.
 
-Definition is_reentry (r : res value exc) : bool :=
-  match r with Raised EReentry => true | _ => false end.
-
 Definition run_function (inner : world -> res value exc * world) (f : fn) (w : world) : world :=
   let w := schedule_extras 0 (f_extras f) w in
   let w := add_sels 0 (f_sels f) w in
   let w := match f_stop f with Some s => later s AStopReq w | None => w end in
   let w := match f_setsig f with Some (s, h) => set_sig (setsig s h (w_sig w)) w | None => w end in
-  let w := if f_reenter f
-           then let '(r, w') := inner w in set_reentry (Some (is_reentry r)) w'
-           else w in
+  let w := fold_left (fun w o => try_reenter inner o w) (f_reenter f) w in
   let w := if f_stop_now f then reactor_stop w else w in
   match f_shape f with
   | Sync _ o => stop_reactor (got o w)      (* the callbacks run at once *)
@@ -197,7 +209,7 @@ Definition run_function (inner : world -> res value exc * world) (f : fn) (w : w
 Definition exec_hook (inner : world -> res value exc * world) (a : action) (w : world) : world :=
   match a with
   | ARunFunction _ f => run_function inner f w
-  | _ => exec_call (mkCall 0 0 a) w
+  | _ => exec_call inner (mkCall 0 0 a) w
   end.
 
 (* ---- signals, 262-273 ---- *)
@@ -215,7 +227,7 @@ Definition install_reactor_signals (w : world) : world :=
   set_sig (fold_left (fun t s => setsig s h_reactor t) reactor_signals (w_sig w)) w.
 
 Definition reactor_run_w inner (batch : bool) (fuel : nat) (w : world) : loop_end * world :=
-  reactor_run w_r set_r exec_call (exec_hook inner) batch fuel (install_reactor_signals w).
+  reactor_run w_r set_r (exec_call inner) (exec_hook inner) batch fuel (install_reactor_signals w).
 
 (* _get_result, 185-190 *)
 Definition get_result (sp : spinner) : res value exc :=
@@ -228,8 +240,8 @@ Definition get_result (sp : spinner) : res value exc :=
   end.
 
 (* _clean, 223-247: iterate, cancel what getDelayedCalls() returned, removeAll, remember junk *)
-Definition clean (iters : nat) (w : world) : world :=
-  let w := Nat.iter iters (iterate w_r set_r exec_call) w in
+Definition clean inner (iters : nat) (w : world) : world :=
+  let w := Nat.iter iters (iterate w_r set_r (exec_call inner)) w in
   let dcs := queue (w_r w) in                                    (* a fresh list *)
   let w := fold_left (fun w c => set_r (cancel (dc_seq c) (w_r w)) w) dcs w in
   let '(sels, r) := remove_all (w_r w) in
@@ -255,7 +267,7 @@ Definition run_body inner (iters : nat) (batch : bool) (T : time) (f : fn) (w : 
       let w := set_stop real w in
       let w := restore_signals w in
       match e with
-      | LDone => (get_result (w_sp w), clean iters w)            (* try: return _get_result() finally: _clean() *)
+      | LDone => (get_result (w_sp w), clean inner iters w)            (* try: return _get_result() finally: _clean() *)
       | _ => (Raised EOther, w)                                   (* an exception out of reactor.run(): only the finally ran *)
       end
   end.
@@ -265,7 +277,7 @@ Definition guarded (body : world -> res value exc * world) (w : world) : res val
   if w_flag w then (Raised EReentry, w)
   else let '(r, w') := body (set_flag true w) in (r, set_flag false w').
 
-Definition trivial_fn := mkFn (Sync 0 (Succeed 7)) [] 0 None false false None.
+Definition trivial_fn := mkFn (Sync 0 (Succeed 7)) [] 0 None false [] None.
 
 (* a call made from inside the function: the same decorated run, on a trivial function *)
 Definition inner_run (iters : nat) (batch : bool) (w : world) : res value exc * world :=
